@@ -40,8 +40,16 @@ func emitRrb(o *lib.Out, name string, in rrbInput) {
 	}
 	o.Emit(lib.Case{Name: name,
 		Coq:   fmt.Sprintf("(J16.Rrb %s %s %d %s %d%%nat)", lib.CoqZ(in.Limit), lib.CoqBytes(in.Bytes), code, lib.CoqBytes(resp), unread),
-		Input: in, Tags: []string{"kind=rrb", "prefix=" + in.Class, fmt.Sprintf("outcome=%d", code), fmt.Sprintf("limit=%d", in.Limit)},
+		Input: in, Tags: []string{"kind=rrb", "prefix=" + in.Class, fmt.Sprintf("outcome=%d", code), limitTag(in.Limit)},
 		Nontrivial: true, Obs: map[string]interface{}{"code": code, "unread": unread, "len": len(resp)}})
+}
+
+func limitTag(l int64) string {
+	switch l {
+	case 0, 16, 100, 1 << 20, 5242880:
+		return fmt.Sprintf("limit=%d", l)
+	}
+	return "limit=random-below-60"
 }
 
 func genRrb(o *lib.Out, r *lib.Rand, n int) {
@@ -329,6 +337,88 @@ func emitK6(o *lib.Out, scratch string) {
 		Tags:  []string{"kind=k6", "kf=K6", fmt.Sprintf("stale=%v", !eqStrings(regs, live))}, Nontrivial: true,
 		Obs: map[string]interface{}{"lookupd_registrations": regs, "nsqd_live": live, "ticks_waited": ticks,
 			"schedule": "GetTopic(t0); [arm park at notify:before-send]; DeleteExistingTopic(t0) -> its Notify goroutine parks; GetTopic(t0) -> new topic's notification served (REGISTER t0); release -> old topic's notification served, old.Exiting() -> UNREGISTER t0; 15 heartbeats later the lookupd still does not list this nsqd for t0"}})
+}
+
+// ---------------------------------------------------------------- K6b on an in-process nsqd
+// A reconnect inside a topic deletion: DeleteExistingTopic has run topic.Delete() (exit flag
+// set, UNREGISTER served) but has not yet removed the topic from n.topicMap when the peer
+// reconnects; connectCallback walks the map without looking at Exiting() and registers the
+// dying topic again; nothing unregisters it afterwards.
+func emitK6b(o *lib.Out, scratch string) {
+	ld, err := startLookupd()
+	if err != nil {
+		lib.Fatalf("lookupd: %v", err)
+	}
+	defer ld.stop()
+	px, err := newProxy()
+	if err != nil {
+		lib.Fatalf("proxy: %v", err)
+	}
+	defer px.close()
+	px.setUpstream(ld.tcp)
+	opts := nsqdlib.NewOpts(scratch)
+	opts.NSQLookupdTCPAddresses = []string{px.addr}
+	n, err := nsqdlib.Start(opts)
+	if err != nil {
+		lib.Fatalf("nsqd: %v", err)
+	}
+	defer n.Exit()
+	port := n.RealTCPAddr().(*net.TCPAddr).Port
+	waitRegs := func(want []string, d time.Duration) []string {
+		dl := time.Now().Add(d)
+		var regs []string
+		for {
+			regs, _ = lookupdRegs(ld.http, port)
+			if eqStrings(regs, want) || time.Now().After(dl) {
+				return regs
+			}
+			time.Sleep(10 * time.Millisecond)
+		}
+	}
+	n.GetTopic("t0")
+	n.GetTopic("t1")
+	waitRegs([]string{"T:t0", "T:t1"}, 5*time.Second)
+	// the deleting goroutine is parked between topic.Delete() and delete(n.topicMap, name)
+	reached, release := nsqd.VerifArmPark("delete-topic:before-remove", 1)
+	delDone := make(chan struct{})
+	go func() { n.DeleteExistingTopic("t0"); close(delDone) }()
+	select {
+	case <-reached:
+	case <-time.After(5 * time.Second):
+		lib.Fatalf("k6b: DeleteExistingTopic never reached the point")
+	}
+	waitRegs([]string{"T:t1"}, 5*time.Second) // the UNREGISTER of t0 has been served
+	// the connection is cut; the next heartbeat notices, the one after reconnects and
+	// connectCallback re-registers everything in the maps
+	accepted := func() int { px.mu.Lock(); defer px.mu.Unlock(); return px.nAccepted }
+	a0 := accepted()
+	px.dropConns()
+	dl := time.Now().Add(5 * time.Second)
+	for accepted() == a0 && time.Now().Before(dl) {
+		time.Sleep(5 * time.Millisecond)
+	}
+	during := waitRegs([]string{"T:t0", "T:t1"}, 3*time.Second)
+	release()
+	<-delDone
+	t0 := time.Now()
+	regs := waitRegs([]string{"T:t1"}, 15*heartbeat)
+	ticks := float64(time.Since(t0)) / float64(heartbeat)
+	live := []string{}
+	for _, t := range []string{"t0", "t1"} {
+		if _, err := n.GetExistingTopic(t); err == nil {
+			live = append(live, "T:"+t)
+		}
+	}
+	ops := []string{"Reconfigure [0%nat]", "Tick", "Tick", "TopicCreate 0", "TopicAdvance 0", "TopicAdvance 0", "Deliver 0%nat",
+		"TopicCreate 1", "TopicAdvance 1", "TopicAdvance 1", "Deliver 0%nat",
+		"TopicDeleteBegin 0", "Deliver 0%nat", "FReply 0%nat [RClose]", "Tick", "Tick", "TopicDeleteEnd 0"}
+	ops = append(ops, repeatOp("Tick", 10)...)
+	ph := fmt.Sprintf("(J16.mkPhase %s [true] [true] [%s] %s true true)", lib.CoqList(ops), coqKeys(regs), coqKeys(live))
+	o.Emit(lib.Case{Name: "k6b-reconnect-inside-topic-deletion", Coq: "(J16.Scenario [" + ph + "])",
+		Input: map[string]interface{}{"kind": "k6b"},
+		Tags:  []string{"kind=k6b", "kf=K6b", fmt.Sprintf("stale=%v", !eqStrings(regs, live))}, Nontrivial: true,
+		Obs: map[string]interface{}{"lookupd_registrations": regs, "nsqd_live": live, "registrations_while_parked": during, "ticks_waited": ticks,
+			"schedule": "GetTopic(t0); GetTopic(t1); [arm park at delete-topic:before-remove]; DeleteExistingTopic(t0) parks after topic.Delete() (UNREGISTER t0 served, t0 still in n.topicMap); the lookupd connection is cut; heartbeat 1: PING fails, peer closed; heartbeat 2: reconnect, connectCallback registers t0 (exiting, still mapped) and t1; release: t0 leaves the map; nothing unregisters t0 any more"}})
 }
 
 var _ = bufio.NewReader
